@@ -36,7 +36,10 @@ ASSUMPTIONS = [
 ]
 
 NAMES = [("os", "system"), ("subprocess", "Popen"), ("builtins", "eval"), ("__builtin__", "__import__"), ("zqv_inert_a", "f"),
-         ("zqv_inert_b.sub", "g"), ("socket", "create_connection"), ("marshal", "loads"), ("importlib", "import_module"), ("ctypes", "CDLL")]
+         ("zqv_inert_b.sub", "g"), ("socket", "create_connection"), ("marshal", "loads"), ("importlib", "import_module"), ("ctypes", "CDLL"),
+         ("this.zen", "lines"), ("chunk.zqv", "f"), ("_codecs", "encode")]
+# string arguments: a shell-ish text and codec names that are not loaded by an idle interpreter
+ARGS = ["echo zqv_inert_c", "cp037", "bz2_codec"]
 # (resolve kind, call kind) templates: every global-resolving opcode and every call-making opcode occurs
 TEMPLATES = [(0, 1), (0, 4), (0, 5), (0, 6), (1, 1), (3, 2), (4, 3), (5, 1), (5, 0), (0, 7), (0, 0)]
 FATES = [0, 1, 2]
@@ -87,8 +90,9 @@ def _hook(ev, args):
                 EVENTS.append((ev, repr((path, mode))))
     elif ev == "import":
         name = args[0]
-        if isinstance(name, str) and name.startswith("zqv_inert") and _attribute() is not None:
-            EVENTS.append((ev, name))
+        if isinstance(name, str) and _attribute() is not None:
+            if name.startswith("zqv_inert") or (name.split(".")[0] in TOKENS and name.split(".")[0] not in LOADED_BEFORE):
+                EVENTS.append((ev, name))
 
 
 class _Finder:
@@ -100,6 +104,8 @@ class _Finder:
 
 
 ALLOWED_WRITES = set()
+TOKENS = set()           # names taken from the input under analysis (module top-levels, string arguments)
+LOADED_BEFORE = set()
 
 
 def _install():
@@ -118,13 +124,16 @@ def monitored():
     _install()
     del EVENTS[:]
     mods_before = set(sys.modules)
+    LOADED_BEFORE.clear()
+    LOADED_BEFORE.update(m.split(".")[0] for m in mods_before)
     ARMED[0] = True
     try:
         yield
     finally:
         ARMED[0] = False
     for m in set(sys.modules) - mods_before:
-        if m.startswith("zqv_inert"):
+        # a module that appeared during the analysis and is named by the input (module token or string argument)
+        if m.startswith("zqv_inert") or any(part in TOKENS for part in m.split(".")):
             EVENTS.append(("sys.modules", m))
 
 
@@ -164,10 +173,24 @@ def run_entry(entry, data):
         pass
 
 
-def program(tpl, ni, x, fate):
+def program(tpl, ni, x, fate, ai=0):
     rk, ck = TEMPLATES[tpl]
     module, name = NAMES[ni]
-    g = gadget(rk, 0, ck, module, name, arg="echo zqv_inert_c")
+    TOKENS.clear()
+    TOKENS.update({module.split(".")[0], ARGS[ai]})
+    TOKENS.difference_update({"builtins", "__builtin__", "os", "sys", "importlib", "marshal", "_codecs"})     # always loaded
+    if (module, name) == ("_codecs", "encode"):
+        # the protocol 0-2 bytes idiom with an input-chosen codec: _codecs.encode(text, codec)
+        from vf.gadgets import strarg
+        if ck == 0:
+            g = gadget(rk, 0, 0, module, name)
+        else:
+            g = gadget(rk, 0, 0, module, name)
+            if g is None:
+                return None
+            g = g + b"(" + strarg("text") + strarg(ARGS[ai]) + b"tR"
+    else:
+        g = gadget(rk, 0, ck, module, name, arg=ARGS[ai])
     if g is None:
         return None
     return b"K" + bytes([x]) + b"0" + with_fate(g, FATES[fate]) + b"."
@@ -176,17 +199,17 @@ def program(tpl, ni, x, fate):
 def make_sym(entry):
     def lem(tpl: int, ni: int, fate: int, x: int, tail: bytes) -> bool:
         """
-        pre: 0 <= tpl < 11 and 0 <= ni < 10 and 0 <= fate < 3 and 0 <= x < 256 and len(tail) <= 2
+        pre: 0 <= tpl < 11 and 0 <= ni < 13 and 0 <= fate < 3 and 0 <= x < 256 and len(tail) <= 2
         post: _
         """
-        if QUICK[0] and (fate != (tpl % 3) or ni not in (0, 2, 4) or len(tail) > 1):
+        if QUICK[0] and (fate != (tpl % 3) or ni not in (0, 2, 4, 10) or len(tail) > 1):
             return True
         tpl, ni, fate = pin(tpl, 0, len(TEMPLATES) - 1), pin(ni, 0, len(NAMES) - 1), pin(fate, 0, 2)
         if ENTRIES[entry] in PRINTING:
-            # these entry points render the int as text (realised digit by digit): keep a 2-bit symbolic value
-            if x > 3:
+            # these entry points render the int as text (realised digit by digit): keep a 1-bit symbolic value
+            if x > 1:
                 return True
-        if ENTRIES[entry] in ("stacked", "cli_decompile", "cli_trace", "cli_check_safety") and len(tail) != 0:
+        if ENTRIES[entry] in ("stacked", "trace", "cli_decompile", "cli_trace", "cli_check_safety") and len(tail) != 0:
             return True      # stack loaders parse the tail as further pickles: symbolic opcodes explode (thorough: corrupt_*)
         data = program(tpl, ni, x, fate)
         if data is None:
@@ -204,7 +227,7 @@ def make_sym(entry):
 def make_mut(entry):
     def lem(tpl: int, ni: int) -> bool:
         """
-        pre: 0 <= tpl < 11 and 0 <= ni < 10
+        pre: 0 <= tpl < 11 and 0 <= ni < 13
         post: _
         """
         tpl, ni = pin(tpl, 0, len(TEMPLATES) - 1), pin(ni, 0, len(NAMES) - 1)
@@ -224,6 +247,12 @@ def _mutations(entry, tpl, ni):
     if base is None:
         return None
     progs = [base] + [base[:t] for t in range(len(base))]
+    for ai in (1, 2):
+        alt = program(tpl, ni, 7, tpl % 3, ai)      # other string arguments (codec names)
+        if alt is not None:
+            progs.append(alt)
+    program(tpl, ni, 7, tpl % 3)
+    TOKENS.update(ARGS)
     step = 1 if not QUICK[0] else 3
     for pos in range(0, len(base), step):
         for b in BYTE_SAMPLES:
@@ -242,7 +271,7 @@ def _mutations(entry, tpl, ni):
 def make_corrupt(entry):
     def lem(tpl: int, ni: int, pos: int, b: int) -> bool:
         """
-        pre: 0 <= tpl < 11 and 0 <= ni < 10 and 0 <= pos < 64 and 0 <= b < 256
+        pre: 0 <= tpl < 11 and 0 <= ni < 13 and 0 <= pos < 64 and 0 <= b < 256
         post: _
         """
         # thorough: one byte at a pinned position takes EVERY value (symbolic), so the parser sees a symbolic opcode/argument
@@ -304,8 +333,8 @@ def lemmas(tier):
         if name != "is_likely_safe":
             L.append(Lemma("sym_" + name, make_sym(e), timeout=300 if q else 1500, dry=[{"tpl": 0, "ni": 0, "fate": 0, "x": 5, "tail": b""}, {"tpl": 4, "ni": 4, "fate": 1, "x": 0, "tail": b"c"}],
                            doc={"S": ["x: BININT1 value in front of the gadget (all 256)", "tail: <=2 arbitrary trailing bytes (may start another opcode)"],
-                                "F": ["template (11: every global-resolving x call-making opcode)", "global (10 dangerous/probe names)", "fate (3)", "entry point " + name],
-                                "bound": "single gadget" + ("; quick: 3 names, one fate per template, tail <= 1 byte" if q else "")}))
+                                "F": ["template (11: every global-resolving x call-making opcode)", "global (13 dangerous/probe names incl. stdlib packages that are not loaded yet and _codecs.encode with an input-chosen codec)", "fate (3)", "entry point " + name],
+                                "bound": "single gadget" + ("; quick: 4 names, one fate per template, tail <= 1 byte" if q else "")}))
         L.append(Lemma("mut_" + name, make_mut(e), timeout=400 if q else 3000, replay=(lambda e_: (lambda tpl, ni: _mutations(e_, tpl, ni)))(e),
                        dry=[{"tpl": 0, "ni": 0}, {"tpl": 7, "ni": 5}],
                        doc={"F": ["solver-partitioned: template x global", "enumerated inside each cell: truncation at every byte position; 1-byte corruption at every %s position with 9 byte values" % ("third" if q else ""),
